@@ -16,12 +16,6 @@ import AsmjitVerif.Props.C17
 import AsmjitVerif.Lemmas.OffsetGeneric64
 namespace AsmjitVerif.Offset
 
-private theorem bv_le (a c : Nat) (h : a ≤ c) (hc : c < 2 ^ 64) : BitVec.ofNat 64 a ≤ BitVec.ofNat 64 c := by
-  rw [BitVec.le_def]; simp only [BitVec.toNat_ofNat]; omega
-private theorem bv_add_le (a b c : Nat) (h : a + b ≤ c) (hc : c < 2 ^ 64) :
-    BitVec.ofNat 64 a + BitVec.ofNat 64 b ≤ BitVec.ofNat 64 c := by
-  rw [BitVec.le_def]; simp only [BitVec.toNat_ofNat, BitVec.toNat_add]; omega
-
 /-- **signed field, any geometry, value sizes 1/2/4.** -/
 theorem signed_generic (size shift bits discard : Nat) (hsz : size = 1 ∨ size = 2 ∨ size = 4)
     (hb : 1 ≤ bits) (hbs : bits + shift ≤ 8 * size) (hd : discard ≤ 32) :
